@@ -1489,4 +1489,357 @@ theorem c04_no_traceback_flat (fenv : FEnv) (cfg : Cfg) (dest : Str) (fs : List 
     (tbl : List Act) (h : tableOf cfg dest fs = some tbl) (cs : List Nat) (argv : List Str) (x : Str) :
     runStrict fenv tbl cs argv ≠ .raise x :=
   c04_no_traceback_partial fenv tbl (tableOf_noRaiseTbl cfg dest fs tbl h) cs argv x
+/-! ### 6. the `parse_tuple` closure counters stay aligned across accepted command lines -/
+
+def tc (act : Act) : Nat := match act.conv with | .tupleCounter _ => 1 | _ => 0
+
+theorem getValue_counters (fenv : FEnv) (act : Act) (i : Nat) (cs cs' : List Nat) (t : Str) (v : Scalar)
+    (hi : i < cs.length) (h : getValue fenv act i cs t = .ok (v, cs')) :
+    cs'.length = cs.length ∧ cs'.getD i 0 = cs.getD i 0 + tc act ∧ ∀ j, j ≠ i → cs'.getD j 0 = cs.getD j 0 := by
+  unfold getValue at h
+  simp only at h
+  have key : ∀ c', c' = (match act.conv, act.conv.apply fenv (cs.getD i 0) t with
+      | .tupleCounter _, .ok _ => bump cs i
+      | _, _ => cs) → (∃ x, act.conv.apply fenv (cs.getD i 0) t = .ok x) →
+      c'.length = cs.length ∧ c'.getD i 0 = cs.getD i 0 + tc act ∧ ∀ j, j ≠ i → c'.getD j 0 = cs.getD j 0 := by
+    intro c' hc' ⟨x, hx⟩
+    subst hc'
+    unfold tc
+    cases hconv : act.conv with
+    | base b => simp
+    | union l => simp
+    | tupleCounter bs =>
+      rw [hconv] at hx
+      simp only [hx]
+      exact ⟨bump_length cs i, bump_getD cs i hi, fun j hj => bump_getD_ne cs i j hj⟩
+  split at h
+  · cases h
+  · cases h
+  · cases h
+  · rename_i x hx
+    split at h
+    · split at h
+      · split at h
+        · simp only [Except.ok.injEq, Prod.mk.injEq] at h
+          exact key cs' h.2.symm ⟨_, hx⟩
+        · cases h
+      · cases h
+    · simp only [Except.ok.injEq, Prod.mk.injEq] at h
+      exact key cs' h.2.symm ⟨_, hx⟩
+
+theorem getValuesList_counters (fenv : FEnv) (act : Act) (i : Nat) :
+    ∀ (toks : List Str) (cs cs' : List Nat) (vs : List Scalar), i < cs.length →
+      getValuesList fenv act i cs toks = .ok (vs, cs') →
+      cs'.length = cs.length ∧ cs'.getD i 0 = cs.getD i 0 + toks.length * tc act ∧
+        ∀ j, j ≠ i → cs'.getD j 0 = cs.getD j 0 := by
+  intro toks
+  induction toks with
+  | nil =>
+    intro cs cs' vs _ h
+    simp only [getValuesList, Except.ok.injEq, Prod.mk.injEq] at h
+    rw [← h.2]; simp
+  | cons t ts ih =>
+    intro cs cs' vs hi h
+    simp only [getValuesList] at h
+    cases h1 : getValue fenv act i cs t with
+    | error e => rw [h1] at h; cases h
+    | ok p =>
+      obtain ⟨v, c1⟩ := p
+      rw [h1] at h
+      simp only at h
+      cases h2 : getValuesList fenv act i c1 ts with
+      | error e => rw [h2] at h; cases h
+      | ok q =>
+        obtain ⟨vs2, c2⟩ := q
+        rw [h2] at h
+        simp only [Except.ok.injEq, Prod.mk.injEq] at h
+        obtain ⟨_, rfl⟩ := h
+        obtain ⟨hl1, hi1, hj1⟩ := getValue_counters fenv act i cs c1 t v hi h1
+        obtain ⟨hl2, hi2, hj2⟩ := ih c1 c2 vs2 (by rw [hl1]; exact hi) h2
+        refine ⟨by rw [hl2, hl1], ?_, fun j hj => by rw [hj2 j hj, hj1 j hj]⟩
+        rw [hi2, hi1, List.length_cons, Nat.add_mul]
+        omega
+
+theorem getValues_counters (fenv : FEnv) (act : Act) (i : Nat) (toks : List Str) (cs cs' : List Nat)
+    (v : Val) (hi : i < cs.length) (h : getValues fenv act i cs toks = .ok (v, cs')) :
+    cs'.length = cs.length ∧ cs'.getD i 0 = cs.getD i 0 + toks.length * tc act ∧
+      ∀ j, j ≠ i → cs'.getD j 0 = cs.getD j 0 := by
+  rw [getValues_ok_iff] at h
+  cases h1 : getValuesList fenv act i cs toks with
+  | error e => rw [h1] at h; cases h
+  | ok p =>
+    obtain ⟨vs, c1⟩ := p
+    rw [h1] at h
+    simp only [Except.ok.injEq, Prod.mk.injEq] at h
+    rw [← h.2]
+    exact getValuesList_counters fenv act i toks cs c1 vs hi h1
+
+/-- the counters of all fixed-arity `parse_tuple` closures are multiples of their arity -/
+def Aligned (tbl : List Act) (cs : List Nat) : Prop :=
+  cs.length = tbl.length ∧
+    ∀ i act bs, tbl[i]? = some act → act.conv = .tupleCounter bs → act.nargs = .num bs.length →
+      cs.getD i 0 % bs.length = 0
+
+theorem takeAction_counters (fenv : FEnv) (tbl : List Act) (st st' : St) (i : Nat) (o : Str)
+    (args : List Str) (act : Act) (hact : tbl[i]? = some act) (hi : i < st.counters.length)
+    (h : takeAction fenv tbl st i o args = .ok st') :
+    st'.counters.length = st.counters.length ∧
+      st'.counters.getD i 0 = st.counters.getD i 0 + args.length * tc act ∧
+      ∀ j, j ≠ i → st'.counters.getD j 0 = st.counters.getD j 0 := by
+  unfold takeAction at h
+  rw [hact] at h
+  simp only at h
+  cases hk : act.kind with
+  | help => rw [hk] at h; cases h
+  | store =>
+    rw [hk] at h
+    simp only at h
+    cases h1 : getValues fenv act i st.counters args with
+    | error e1 => rw [h1] at h; cases h
+    | ok p =>
+      obtain ⟨v, cs⟩ := p
+      rw [h1] at h
+      simp only [Except.ok.injEq] at h
+      subst h
+      exact getValues_counters fenv act i args st.counters cs v hi h1
+  | boolOpt negs =>
+    rw [hk] at h
+    simp only at h
+    cases h1 : getValues fenv act i st.counters args with
+    | error e1 => rw [h1] at h; cases h
+    | ok p =>
+      obtain ⟨v, cs⟩ := p
+      rw [h1] at h
+      have := getValues_counters fenv act i args st.counters cs v hi h1
+      dsimp only at h
+      split at h
+      · simp only [Except.ok.injEq] at h; subst h; exact this
+      · split at h
+        · cases h
+        · simp only [Except.ok.injEq] at h; subst h; exact this
+      · cases h
+
+theorem takeAction_aligned (fenv : FEnv) (tbl : List Act) (st st' : St) (i : Nat) (o : Str)
+    (args : List Str) (hal : Aligned tbl st.counters)
+    (hargs : ∀ act m, tbl[i]? = some act → act.nargs = .num m → args.length = m)
+    (h : takeAction fenv tbl st i o args = .ok st') : Aligned tbl st'.counters := by
+  cases hact : tbl[i]? with
+  | none => unfold takeAction at h; rw [hact] at h; cases h
+  | some act =>
+    have hi : i < st.counters.length := by
+      rw [hal.1]
+      exact (List.getElem?_eq_some_iff.mp hact).1
+    obtain ⟨hl, hii, hjj⟩ := takeAction_counters fenv tbl st st' i o args act hact hi h
+    refine ⟨by rw [hl, hal.1], ?_⟩
+    intro j actj bs hj hconv hn
+    by_cases hji : j = i
+    · subst hji
+      rw [hact] at hj
+      cases hj
+      rw [hii]
+      have htc : tc act = 1 := by unfold tc; rw [hconv]
+      rw [htc, Nat.mul_one, hargs act bs.length hact hn, Nat.add_mod_right]
+      exact hal.2 j act bs hact hconv hn
+    · rw [hjj j hji]
+      exact hal.2 j actj bs hj hconv hn
+
+theorem countA_le_length (l : List Tok) : countA l ≤ l.length := by
+  induction l with
+  | nil => simp [countA]
+  | cons t ts ih => cases t <;> simp [countA] <;> omega
+
+theorem matchCount_num (m : Nat) (f : List Tok) (k : Nat) (h : matchCount (.num m) f = some k) :
+    k = m ∧ m ≤ f.length := by
+  unfold matchCount at h
+  simp only at h
+  split at h
+  · rename_i hge
+    simp only [Option.some.injEq] at h
+    exact ⟨h.symm, Nat.le_trans hge (countA_le_length f)⟩
+  · cases h
+
+theorem consume_aligned (fenv : FEnv) (tbl : List Act) (fuel : Nat) (st st' : St)
+    (l : List (Str × Tok)) (h : consume fenv tbl fuel st l = .ok st') (hal : Aligned tbl st.counters) :
+    Aligned tbl st'.counters := by
+  induction fuel generalizing st l with
+  | zero =>
+    cases l with
+    | nil => simp only [consume, Except.ok.injEq] at h; subst h; exact hal
+    | cons p ps => simp [consume] at h
+  | succ n ih =>
+    cases l with
+    | nil => simp only [consume, Except.ok.injEq] at h; subst h; exact hal
+    | cons p ps =>
+      obtain ⟨a, t⟩ := p
+      cases t with
+      | A => simp only [consume] at h; exact ih _ _ h hal
+      | dd => simp only [consume] at h; exact ih _ _ h hal
+      | O act o ex =>
+        cases act with
+        | none => simp only [consume] at h; exact ih _ _ h hal
+        | some i =>
+          cases ex with
+          | some x =>
+            simp only [consume] at h
+            cases hact : tbl[i]? with
+            | none => rw [hact] at h; cases h
+            | some act =>
+              rw [hact] at h
+              simp only at h
+              split at h
+              · split at h <;> cases h
+              · cases hn : act.nargs with
+                | num m =>
+                  rw [hn] at h
+                  simp only at h
+                  split at h
+                  · rename_i hm1
+                    cases ht : takeAction fenv tbl st i o [x] with
+                    | error e1 => rw [ht] at h; cases h
+                    | ok st2 =>
+                      rw [ht] at h
+                      refine ih _ _ h (takeAction_aligned fenv tbl st st2 i o [x] hal ?_ ht)
+                      intro act' m' ha' hn'
+                      rw [hact] at ha'; cases ha'
+                      rw [hn] at hn'; cases hn'
+                      simp [hm1]
+                  · cases h
+                | one =>
+                  rw [hn] at h
+                  simp only at h
+                  cases ht : takeAction fenv tbl st i o [x] with
+                  | error e1 => rw [ht] at h; cases h
+                  | ok st2 =>
+                    rw [ht] at h
+                    refine ih _ _ h (takeAction_aligned fenv tbl st st2 i o [x] hal ?_ ht)
+                    intro act' m' ha' hn'
+                    rw [hact] at ha'; cases ha'
+                    rw [hn] at hn'; cases hn'
+                | opt =>
+                  rw [hn] at h
+                  simp only at h
+                  cases ht : takeAction fenv tbl st i o [x] with
+                  | error e1 => rw [ht] at h; cases h
+                  | ok st2 =>
+                    rw [ht] at h
+                    refine ih _ _ h (takeAction_aligned fenv tbl st st2 i o [x] hal ?_ ht)
+                    intro act' m' ha' hn'
+                    rw [hact] at ha'; cases ha'
+                    rw [hn] at hn'; cases hn'
+                | star =>
+                  rw [hn] at h
+                  simp only at h
+                  cases ht : takeAction fenv tbl st i o [x] with
+                  | error e1 => rw [ht] at h; cases h
+                  | ok st2 =>
+                    rw [ht] at h
+                    refine ih _ _ h (takeAction_aligned fenv tbl st st2 i o [x] hal ?_ ht)
+                    intro act' m' ha' hn'
+                    rw [hact] at ha'; cases ha'
+                    rw [hn] at hn'; cases hn'
+                | plus =>
+                  rw [hn] at h
+                  simp only at h
+                  cases ht : takeAction fenv tbl st i o [x] with
+                  | error e1 => rw [ht] at h; cases h
+                  | ok st2 =>
+                    rw [ht] at h
+                    refine ih _ _ h (takeAction_aligned fenv tbl st st2 i o [x] hal ?_ ht)
+                    intro act' m' ha' hn'
+                    rw [hact] at ha'; cases ha'
+                    rw [hn] at hn'; cases hn'
+          | none =>
+            simp only [consume] at h
+            cases hact : tbl[i]? with
+            | none => rw [hact] at h; cases h
+            | some act =>
+              rw [hact] at h
+              simp only at h
+              by_cases hkind : act.kind = .help
+              · simp only [hkind, ↓reduceIte] at h; cases h
+              · simp only [hkind, ↓reduceIte] at h
+                cases hm : matchCount act.nargs (ps.map (·.2)) with
+                | none => rw [hm] at h; cases h
+                | some k =>
+                  rw [hm] at h
+                  simp only at h
+                  cases ht : takeAction fenv tbl st i o ((ps.take k).map (·.1)) with
+                  | error e1 => rw [ht] at h; cases h
+                  | ok st2 =>
+                    rw [ht] at h
+                    refine ih _ _ h (takeAction_aligned fenv tbl st st2 i o _ hal ?_ ht)
+                    intro act' m' ha' hn'
+                    rw [hact] at ha'; cases ha'
+                    rw [hn'] at hm
+                    obtain ⟨hk, hle⟩ := matchCount_num m' _ k hm
+                    simp only [List.length_map, List.length_take] at hle ⊢
+                    omega
+
+theorem finish_counters (fenv : FEnv) (tbl : List Act) (st st' : St) (l : List (Act × Nat))
+    (h : finish fenv tbl st l = .ok st') : st'.counters = st.counters := by
+  induction l generalizing st with
+  | nil => simp only [finish, Except.ok.injEq] at h; subst h; rfl
+  | cons p ps ih =>
+    obtain ⟨a, i⟩ := p
+    rw [finish] at h
+    split at h
+    · exact ih _ h
+    · split at h
+      · cases h
+      · split at h
+        · split at h
+          · split at h
+            · have := ih _ h; exact this
+            · cases h
+            · cases h
+            · cases h
+          · exact ih _ h
+        · exact ih _ h
+
+/-- **the `parse_tuple` closures stay aligned across parses**: if before a parse every fixed-arity
+    tuple closure's call counter is a multiple of its arity (true for a new parser: all 0), then it
+    is so again after ANY accepted command line — however many times the tuple options occur. So
+    the next parse on the same parser starts every tuple at its first item type (with
+    `C02.c02_tuple_occurrence`: it converts exactly as a fresh parser would). Rejected command lines
+    reset the counter in the real code (fix b1a5942); the model's exits carry no state. -/
+theorem c04_counters_aligned (fenv : FEnv) (tbl : List Act) (cs : List Nat) (argv : List Str)
+    (ns : List (Str × Val)) (ex : List Str) (cs' : List Nat)
+    (hal : Aligned tbl cs) (h : run fenv tbl cs argv = .ok ns ex cs') : Aligned tbl cs' := by
+  unfold run at h
+  cases hlex : lexAll tbl argv with
+  | error e => rw [hlex] at h; cases h
+  | ok toks =>
+    rw [hlex] at h
+    dsimp only at h
+    cases hc : consume fenv tbl (argv.length + 1)
+        { ns := initNs tbl, extras := [], seen := [], counters := cs } (argv.zip toks) with
+    | error e =>
+      rw [hc] at h; dsimp only at h
+      have := consume_err _ _ _ _ _ _ hc
+      rw [h] at this; exact absurd this (by simp [GoodErr])
+    | ok st =>
+      rw [hc] at h; dsimp only at h
+      have h1 := consume_aligned fenv tbl _ _ st _ hc hal
+      cases hf : finish fenv tbl st tbl.zipIdx with
+      | error e =>
+        rw [hf] at h; dsimp only at h
+        have := finish_err _ _ _ _ _ hf
+        rw [h] at this; exact absurd this (by simp [GoodErr])
+      | ok st2 =>
+        rw [hf] at h; dsimp only at h
+        simp only [EOut.ok.injEq] at h
+        rw [← h.2.2, finish_counters fenv tbl st st2 _ hf]
+        exact h1
+
+example : Aligned tupTbl [0] := ⟨rfl, by
+  intro i act bs h hc hn
+  match i, h with
+  | 0, h =>
+    simp only [tupTbl, List.getElem?_cons_zero, Option.some.injEq] at h
+    subst h
+    simp only [Conv.tupleCounter.injEq] at hc
+    subst hc
+    rfl
+  | _ + 1, h => simp [tupTbl] at h⟩
+
 end SpVerif.C04
